@@ -16,6 +16,12 @@ func (k Keeper) EndBlocker(ctx sdk.Context) {
 
 	// NOTE: ignore end of block if coinomics is disabled
 	if !params.EnableCoinomics {
+		// Forget the last minting timestamp while minting is switched off, so
+		// that the first block after a (re-)activation only records its
+		// timestamp instead of minting for the whole period minting was off.
+		if !k.GetPrevBlockTS(ctx).IsZero() {
+			k.SetPrevBlockTS(ctx, sdk.ZeroInt())
+		}
 		return
 	}
 
